@@ -14,6 +14,14 @@ CHECKS = {
     design="3/C19"),
 }
 
+CHECKS["C18"] = dict(
+    engine="vsched",
+    category="model_checking",
+    technique="explicit-state BFS over operation histories on the real registries against a reference list model, plus exhaustive interleaving exploration (controlled scheduler) of racing occurrences",
+    text="Every history of On/Once/Off(0..3 handlers incl. duplicates)/OffAll/fire over 3 handlers (one plain function, two closures of one literal) and 1-2 events (one name a prefix of the other) up to depth 4-5 is replayed on a fresh real handlerStore / eventHandlerStore and through the public wrappers Server.*NewNamespace, Namespace.*Event, ServerSocket.*Event, ServerSocket.*Error (run under the scheduler in virtual time so asynchronous fan-out has finished when observed), and compared step by step with a list model; states are deduplicated by the model's canonical form. All interleavings of 2-3 racing occurrences with Off/On decide the at-most-once part.",
+    note="Trusted: reference model (two lists per event); vsched semantics; scope: 3 handlers, 2 events, depth 3-5.",
+    design="3/C18")
+
 NOT_APPLICABLE = {
 }
 
